@@ -8,6 +8,7 @@ for d in sorted(glob.glob('/verif/seeded/*/meta.json')):
     cl = re.sub(r'\s+', ' ', m.get('check_clauses', '')).replace('clause=', '')
     hist = m.get('check_history', [])
     v = m['check_verdict'] + (' (after strengthening; first run: %s)' % hist[0]['verdict'] if hist and hist[0]['verdict'] != m['check_verdict'] else '')
+    if m.get('strengthened_before_first_run'): v += ' (generator extended after reading the agent\'s report, before the first run)'
     print('| `%s` | %s | %s | %s / %s | %s | %s |' % (m['id'], m['property'], m['existing_suite_with_change'], 'fails' if m['demo_exit_with_change'] else 'passes', 'passes' if m['demo_exit_without_change'] == 0 else 'fails', v, cl))
 print()
 print('| Mutant (own) | Property | Verdict (quick check, 20 s budget) | Clauses |')
